@@ -3,9 +3,12 @@ pub mod c03;
 pub mod c04;
 pub mod c05;
 pub mod c06;
+pub mod c11;
+pub mod c11b;
 pub mod c12;
 pub mod c13;
 pub mod c14;
+pub mod c27;
 pub mod c32;
 
 macro_rules! table {
@@ -26,9 +29,11 @@ pub fn dispatch(ctx: &Ctx, replay: Option<&str>) -> i32 {
         "C04" => c04,
         "C05" => c05,
         "C06" => c06,
+        "C11" => c11,
         "C12" => c12,
         "C13" => c13,
         "C14" => c14,
+        "C27" => c27,
         "C32" => c32,
     )
 }
